@@ -33,7 +33,7 @@ TABLE = {
          "Generated search programs (nested cond/conjunction/fresh/closure, list relations on literal lists) wrapped in dfs{}: the order in which states leave the depth-first block and the order at the iterator must both equal the reference's Prolog order. A scale family uses disjunctions of up to 400 clauses, chains of up to 200 binary choice points and recursive relations (also recursive-clause-first and non-tail-recursive ones) over literal lists of up to 400/1000 elements. Exploration.",
          REFI),
  "C06": (PBT + ": differential interleaving vs depth-first vs reference interpreter (finite trees); soundness of bounded prefixes of infinite streams against reference set semantics",
-         "Finite search programs must have equal answer multisets under interleaving search, under dfs{} and in the reference; for programs with infinite producers ground instances of the first 25 answers must be solutions. The scale family of C05 is reused for the finite comparison. Exploration.",
+         "Finite search programs must have equal answer multisets under interleaving search, under dfs{} and in the reference; for programs with infinite producers ground instances of the first 25 answers must be solutions. The scale family of C05 is reused for the finite comparison. Every finite program is additionally built through the constructor functions of the public API (Disj/DFSDisj::from_conjunctions, Conj::from_vec, pairwise Disj::new / Conj::new) instead of the operators the macros expand to. Exploration.",
          REFI),
  "C07": (PBT + ": bounded liveness in engine steps (step-counter hook): obligations from each branch run alone must appear in the whole disjunction within a generous step bound",
          "Disjunctions mixing finite goals, infinite producers and silent divergers at several nesting positions; each branch's first answers (run alone) must be produced by the whole disjunction within 256x their cost + 10000 steps (10x confirm run). A scale family uses disjunctions of up to 200/600 branches and divergers buried below up to 400/1000 pending conjunctions. Decides starvation/divergence, not mere slowness. Exploration.",
@@ -45,13 +45,13 @@ TABLE = {
          "Canonical answer sequences of tree, search and CLP(FD) programs must be identical position by position across repeated runs and processes; the iterator must stay None; take(n) of productive infinite programs must finish within a step budget. The reported constraints must agree syntactically (up to renaming, order of constraints, order and orientation of pairs), not only semantically. Extra families: multi-pair disequalities with chained variables, finite-domain branches ending in a multi-binding unification next to a sibling branch, and programs with one large dimension. Exploration; hash seeds are sampled, not enumerated.",
          "std RandomState cannot be controlled from outside: other processes' seeds are sampled. Needs the step-counter hook for the laziness half."),
  "C10": (PBT + ": metamorphic relation - conde{A,B[,C]} after a shared prefix equals the multiset union of the branches run alone, in both branch orders, with an instrumented User type",
-         "Shared prefixes with pending constraints (disequalities, plusz/timesz, FD domains, distinctfd) and user-state updates followed by 2-3 branches from the same vocabulary; the user counter is exposed as a query variable when some goal updates it. A second family posts FD constraints before any domain, aims the branches' bindings at one prefix constraint (violate / satisfy / unrelated) and posts the domains after the disjunction. Exploration.",
+         "Shared prefixes with pending constraints (disequalities, plusz/timesz, FD domains, distinctfd) and user-state updates followed by 2-3 branches from the same vocabulary; the user counter is exposed as a query variable when some goal updates it. A second family posts FD constraints before any domain, aims the branches' bindings at one prefix constraint (violate / satisfy / unrelated) and posts the domains after the disjunction. A third of the cases each is built as the macros expand, with from_conjunctions, and with nested Disj::new. Exploration.",
          "Implementation compared with itself; answers compared up to renaming and constraint equivalence."),
  "C11": (PBT + " against the reference interpreter (project = body evaluated on the walked value per state); failures with >=2 states reaching the goal are the listed known finding",
          "Programs where 0-4 states reach a project goal with non-relational fngoal bodies (also resumed later); multiset equality with the reference and no panic. The single-state cases are fully checked (also with alias chains and projected terms of hundreds of levels); multi-state cases hit C11-project-reached-twice. Exploration.",
          REFI),
  "C12": (PBT + ": metamorphic relation for-loop vs explicit per-element conjunction, plus reference interpreter (tree bodies)",
-         "everyg with collections of 0-4 terms (Vec and LTerm list), bodies over the loop variable, query variables and a body-local fresh variable on which the body may make its own choice (tree and FD bodies); a second family uses collections of up to 400/1000 elements. Exploration. The surface `for` form is covered by C14's compile pipeline.",
+         "everyg with collections of 0-4 terms (Vec and LTerm list), bodies over the loop variable, query variables and a body-local fresh variable on which the body may make its own choice (tree and FD bodies); a second family uses collections of up to 400/1000 elements, a third iterates a collection that is known only at solve time (`for x in &l` below `project |l|`); elements may be lists themselves (nested `for`, domains on element lists). Exploration. The surface `for` form is covered by C14's compile pipeline.",
          REFI),
  "C13": ("property-based testing through a compile pipeline: generated match/matche/matcha/matchu programs are emitted as Rust source, compiled against the current tree in one cargo build, run, and compared with the reference evaluation of the documented expansion and with the dynamic build of the same AST",
          "700 (quick) / 12000 (thorough) generated pattern-matching programs per run exercise literal, [], `_`, proper/improper list and compound patterns, repeated names, `p1 | p2` alternatives, empty bodies, shadowing pattern variables; answers must equal the reference's as multisets. Exploration.",
